@@ -190,6 +190,30 @@ Definition create_ks_key (in_key out_key : list Z) (t : nat) (b : Z) (ds : list 
   | None => None
   end.
 
+(* ---- lweCreateKeySwitchKey_old: every cell (h = 0 included) is a fresh lweSymEncrypt of its message
+        (lweCreateKeySwitchKey_fromArray), then renormalizeKSkey subtracts from every row with h >= 1 the average of the
+        errors of those rows (sum in wrapping int32, divided in binary64, converted back with dtot32) ---- *)
+Fixpoint ks_rows_fresh (out_key : list Z) (cells : list (Z * Z)) (ds : list draw) : option (list sample * list draw) :=
+  match cells with
+  | [] => Some ([], ds)
+  | (mess, _) :: cells' =>
+    match lwe_sym_encrypt out_key mess ds with
+    | Some (c, r) => match ks_rows_fresh out_key cells' r with Some (rows, r') => Some (c :: rows, r') | None => None end
+    | None => None
+    end
+  end.
+Definition ks_renormalize (out_key : list Z) (cells : list (Z * Z)) (rows : list sample) : list sample :=
+  let cr := combine cells rows in
+  let error := fold_left (fun a x => if snd (fst x) =? 0 then a else w32 (a + w32 (lwe_phase out_key (snd x) - fst (fst x)))) cr 0 in
+  let nb := Z.of_nat (length (filter (fun c => negb (snd c =? 0)) cells)) in
+  let e2 := dtot32_dy (dy_div_int (error, -32) nb) in
+  map (fun x => if snd (fst x) =? 0 then snd x else (fst (snd x), w32 (snd (snd x) - e2))) cr.
+Definition create_ks_key_old (in_key out_key : list Z) (t : nat) (b : Z) (ds : list draw) : option (list sample * list draw) :=
+  match ks_rows_fresh out_key (ks_cells in_key t b) ds with
+  | Some (rows, r) => Some (ks_renormalize out_key (ks_cells in_key t b) rows, r)
+  | None => None
+  end.
+
 (* ---- bootstrapping key (tfhe_createLweBootstrappingKey): key-switching key from the extracted ring key to the LWE key,
         then one TGSW encryption of every LWE key bit ---- *)
 Fixpoint bk_rows (l : nat) (B : Z) (tkey : list (list Z)) (N : nat) (kin : list Z) (ds : list draw) : option (list tgsw * list draw) :=
@@ -244,6 +268,7 @@ Definition FAIL : list Z := [-99; -99; -99].
    4 tlwe_keygen k N | 5 tlwe_encrypt_zero k N key | 6 tlwe_sym_encrypt k N key msg(N) | 7 tlwe_sym_encryptT k N key msg
    8 tlwe decrypt k N key c M (polynomial) | 9 tlwe decryptT | 10 tgsw_sym_encrypt_int k N l B key m | 11 tgsw_sym_encrypt k N l B key mu(N)
    12 create_ks_key n nout t b in_key out_key | 13 secret_keyset n k N l B t bb
+   15 create_ks_key_old n nout t b in_key out_key (lweCreateKeySwitchKey_old)
    14 lwe_sym_encrypt_ext n key message noise_numerator noise_exponent (the external noise is numerator / 2^exponent)
    every encryption result is followed by the number of draws left *)
 Definition entry_enc (v : list Z) : list Z :=
@@ -304,6 +329,14 @@ Definition entry_enc (v : list Z) : list Z :=
         match secret_keyset (Z.to_nat n) (Z.to_nat k) (Z.to_nat nn) (Z.to_nat l) B (Z.to_nat t) bb (draws_of (Z.to_nat nd) dsv) with
         | Some (lk, tk, ks, bk, rest) => lk ++ concat tk ++ concat (map flat_sample ks) ++ concat (map (fun g => concat (map (@concat Z) g)) bk) ++ [nleft rest]
         | None => FAIL end
+      | _ => [] end
+    else if opc =? 15 then
+      match r with n :: nout :: t :: b :: r1 => let n := Z.to_nat n in let nout := Z.to_nat nout in
+        let ik := firstn n r1 in let ok := firstn nout (skipn n r1) in
+        match skipn (n + nout) r1 with nd :: dsv =>
+          match create_ks_key_old ik ok (Z.to_nat t) b (draws_of (Z.to_nat nd) dsv) with
+          | Some (rows, rest) => concat (map flat_sample rows) ++ [nleft rest] | None => FAIL end
+        | _ => [] end
       | _ => [] end
     else if opc =? 14 then
       match r with n :: r1 => let n := Z.to_nat n in
